@@ -1,5 +1,6 @@
 import Replicon.Proofs.Client
 import Replicon.Proofs.Fresh
+import Replicon.Proofs.Session
 /-
 C01 — Every client converges to the server state under any legal network schedule.
 
@@ -12,7 +13,10 @@ Proved here are the two halves of a convergence argument — *progress* (whateve
 lacks is in the next run's messages) and *stability* (once nothing is lacking, the run is
 silent and the client's frame changes nothing) — per run.  `C01_converges_partial`: the
 induction over an arbitrary legal history that joins them (the invariant that the server's
-belief `mutTick` never runs ahead of what the client has applied) is not proved as one theorem.
+belief `mutTick` never runs ahead of what the client has applied) is not proved as one theorem
+for *values*.  For the *set of entities* it is (`C01_history_same_entities`, `Proofs/Session.lean`):
+over all histories of the joint model the client model fed the session's update messages in
+order holds exactly the replicated entities visible to it.
 Known findings outside the theorems: F4 (periodic components), F20 (tick-0 race).
 -/
 namespace Replicon.C01
@@ -143,5 +147,26 @@ theorem C01_known_finding_F4_witness :
 theorem C01_known_finding_F4_server_value :
     ((Joint.run f4Start f4Ops).1.srv.world.map fun x => (x.1, x.2.comps.map fun c => (c.1, c.2.val))) = [(1, [(3, 2), (0, 2)])] := by
   rfl
+
+/-- **The same visible replicated entities, over ALL histories, across both models**
+(`Proofs/Session.lean`; the statement of `C03_history_session`): after any history — entity
+identifiers not reused, a stopped server sees a frame before a restart, no pre-spawn mappings —
+that ends with a frame in which `send_replication` ran, every authorized client that has applied,
+in order, the update messages sent to it in its session holds exactly the server entities that
+carry the replication marker and are visible to it, and applying those messages never failed.
+(Mutate messages do not create or remove entities: the set depends on the update messages only,
+so this is the "same visible replicated entities" clause of C01 whatever happened to the
+unreliable channel.) -/
+theorem C01_history_same_entities (s0 : Server) (hw : s0.world = []) (hc0 : s0.clients = []) (hb : s0.removalBuf = [])
+    (ops : List Joint.Op) (ticked : Bool) (ms : Nat) (parts : Nat → List (List Nat))
+    (hl : Joint.Legal2 { srv := s0 } (ops ++ [.frame ticked ms parts]))
+    (hr : (Joint.run { srv := s0 } ops).1.srv.running = true)
+    (hc : (preRun (Joint.run { srv := s0 } ops).1.srv ticked ms).tickChanged = true) :
+    ∀ x ∈ (Joint.run { srv := s0 } (ops ++ [.frame ticked ms parts])).1.srv.clients, x.2.authorized = true →
+      WF (Joint.replay ((Joint.runLog { srv := s0 } (fun _ => []) (ops ++ [.frame ticked ms parts])).2 x.1)) ∧
+      ∀ se, held (Joint.replay ((Joint.runLog { srv := s0 } (fun _ => []) (ops ++ [.frame ticked ms parts])).2 x.1)) se ↔
+        marked (Joint.run { srv := s0 } (ops ++ [.frame ticked ms parts])).1.srv.world se ∧
+        Vis.isVisible (Joint.run { srv := s0 } (ops ++ [.frame ticked ms parts])).1.srv.white (cell x.2 se) = true :=
+  Joint.session_view s0 hw hc0 hb ops ticked ms parts hl hr hc
 
 end Replicon.C01
